@@ -269,6 +269,21 @@ func (b *siteBuilder) page() string {
 	}
 	r.Assets = append(r.Assets, b.extra...)
 	b.extra = nil
+	if b.pick("selfref", 5) == 0 {
+		// the page names itself among its requisites (<link rel="canonical">, og:image of a media page): not an embedded
+		// resource; whatever follows it in the document is one like any other - here an API document that lists further
+		// pages, whose links count from the page's hop level
+		k := b.pick("selfat", len(r.Assets)+1)
+		tail := append([]string{u}, r.Assets[k:]...)
+		if b.pick("selfthenjson", 2) == 0 {
+			d := b.name("d", ".json")
+			b.site[d] = &Res{Kind: "json", Assets: []string{b.leaf()}, Links: []string{b.name("jl", ""), b.name("jl", "")}}
+			tail = append([]string{u, d}, r.Assets[k:]...)
+			b.feat["json-outlinks"] = true
+		}
+		r.Assets = append(r.Assets[:k:k], tail...)
+		b.feat["self-reference"] = true
+	}
 	nl := b.pick("nlinks", 4)
 	for i := 0; i < nl; i++ {
 		if lk := b.pick("linkkind", 5); lk == 0 {
